@@ -53,6 +53,10 @@ type Config struct {
 	Check func(x *Exec) string
 	// StopAtFirst stops at the first violation.
 	StopAtFirst bool
+	// Delay selects delay bounding: every deviation from the default scheduling
+	// choice costs one unit of Bound, including switches made while the running
+	// thread is blocked (which are free under preemption bounding).
+	Delay bool
 	// NoCache disables happens-before state caching (every schedule within
 	// the bound is then executed to the end).
 	NoCache bool
@@ -108,7 +112,7 @@ func runOnce(t *testing.T, cfg *Config, prefix []Point, visited map[uint64]int8,
 				s.MaxStep = cfg.MaxStep
 			}
 			s.Horizon = cfg.Horizon
-			s.Visited, s.Bound, s.NoTrace = visited, cfg.Bound, noTrace
+			s.Visited, s.Bound, s.NoTrace, s.Delay = visited, cfg.Bound, noTrace, cfg.Delay
 			s.Run(cfg.Body)
 			x.Pruned = s.Pruned
 			x.Points, x.Trace, x.Log = s.Points, s.Trace, s.Log
@@ -117,7 +121,7 @@ func runOnce(t *testing.T, cfg *Config, prefix []Point, visited map[uint64]int8,
 		})
 	}()
 	for _, p := range x.Points {
-		if !p.Env && p.CurEnabled && p.Chosen > 0 {
+		if !p.Env && (p.CurEnabled || cfg.Delay) && p.Chosen > 0 {
 			x.Preempt++
 		}
 	}
@@ -243,7 +247,7 @@ func Explore(t *testing.T, cfg *Config) *Result {
 				if i >= len(it.prefix) {
 					for alt := 1; alt < p.N; alt++ {
 						c := cost
-						if !p.Env && p.CurEnabled {
+						if !p.Env && (p.CurEnabled || cfg.Delay) {
 							c++
 						}
 						if c > cfg.Bound {
@@ -255,7 +259,7 @@ func Explore(t *testing.T, cfg *Config) *Result {
 						stacks[c] = append(stacks[c], item{prefix: np})
 					}
 				}
-				if !p.Env && p.CurEnabled && p.Chosen > 0 {
+				if !p.Env && (p.CurEnabled || cfg.Delay) && p.Chosen > 0 {
 					cost++
 				}
 				if p.Env {
